@@ -15,6 +15,12 @@ fn main() {
     sys.add_parent("child", "parent", resources("AS65001", "10.1.0.0/16", "")).expect("child under parent");
     sys.sync_rounds("child", "parent", 2).expect("sync child");
     sys.routes_update("child", &["10.1.0.0/24 => 65001"], &[]).expect("roa");
+    sys.aspas_update("child", &["AS65001 => AS65002, AS65003"], &[]).expect("aspa");
+    sys.add_ca("grand").expect("add grand");
+    sys.add_parent("grand", "child", resources("", "10.1.0.0/20", "")).expect("grand under child");
+    sys.sync_rounds("grand", "child", 2).expect("sync grand");
+    sys.child_suspend("parent", "child", true).expect("suspend");
+    sys.keyroll_init("child").expect("roll init");
     println!("hierarchy {:?}", t0.elapsed());
     println!("pending: {:?}", sys.task_keys("pending"));
     let done = sys.pump(50, 3000);
@@ -26,6 +32,26 @@ fn main() {
     for p in ["ta", "parent", "child"] {
         let d = sys.krill.repo_manager().get_publisher_details(publisher_handle(p)).unwrap();
         println!("publisher {p}: {} files", d.current_files.len());
+    }
+    if std::env::var("DUMP").is_ok() {
+        let parent = sys.ca("parent").unwrap();
+        println!("PARENT {}", serde_json::to_string(&*parent).unwrap());
+        println!("CHILD {}", serde_json::to_string(&*child).unwrap());
+        let store = sys.krill.storage().open(krill::constants::CA_OBJECTS_NS).unwrap();
+        for k in store.keys(None, "").unwrap() {
+            let v: serde_json::Value = store.get(None, &k).unwrap().unwrap();
+            println!("CAOBJ {} {}", k, serde_json::to_string(&v).unwrap());
+        }
+        let cas = sys.krill.storage().open(krill::constants::CASERVER_NS).unwrap();
+        for sc in cas.scopes().unwrap() { let mut ks = cas.keys(Some(&sc), "command").unwrap(); ks.sort(); for k in ks {
+            let v: serde_json::Value = cas.get(Some(&sc), &k).unwrap().unwrap();
+            println!("CMD {}/{} {}", sc, k, serde_json::to_string(&v).unwrap());
+        }}
+        let st = sys.krill.storage().open(krill::constants::STATUS_NS).unwrap();
+        for sc in st.scopes().unwrap() { for k in st.keys(Some(&sc), "").unwrap() {
+            let v: serde_json::Value = st.get(Some(&sc), &k).unwrap().unwrap();
+            println!("STATUS {}/{} {}", sc, k, serde_json::to_string(&v).unwrap());
+        }}
     }
     let _ = std::fs::remove_dir_all(&dir);
 }
